@@ -75,6 +75,19 @@ func VerifC08_Precedence() {
 		files["comp.vuego"] = "---\nk: COMP\nK: COMP\n---\n<s>c{{ k }}</s>"
 		page = strings.Replace(page, "<p ", `<template include="comp.vuego" z="1"></template><p `, 1)
 	}
+	// the page may sit under a chain of two layouts; the middle one defines
+	// the key in its own front-matter (visible inside that layout only), the
+	// outer one reads it: it sees what the page's sources say
+	chain := zzBool("layoutChain")
+	if chain {
+		if strings.HasPrefix(page, "---\n") {
+			page = "---\nlayout: post\n" + page[4:]
+		} else {
+			page = "---\nlayout: post\n---\n" + page
+		}
+		files["layouts/post.vuego"] = "---\nlayout: outer\nk: POST\nK: POST\n---\n<div v-html=\"content\"></div><u>[P:{{ " + kn + " }}]</u>"
+		files["layouts/outer.vuego"] = "<main v-html=\"content\"></main><b>[B:{{ " + kn + " }}]</b>"
+	}
 	files["page.vuego"] = page
 	if inData {
 		files["data/site.yml"] = kn + ": DATA\nd: D\n"
@@ -176,6 +189,19 @@ func VerifC08_Precedence() {
 	zzNote("want", want)
 	zzAssert(err == nil, "C08.precedence.render-error")
 	zzAssert(strings.Contains(out, "["+want+"]"), "C08.precedence.interpolation")
+	if chain {
+		zzAssert(strings.Contains(out, "[P:POST]"), "C08.precedence.layout-own-front-matter")
+		// the middle layout's own front-matter is visible in that layout only
+		zzAssert(!strings.Contains(out, "[B:POST]"), "C08.precedence.layout-front-matter-leaks-to-the-next-layout")
+		if !inFM && nilIn == 0 {
+			// for a key the page's front-matter does not define, the outer
+			// layout (which has no front-matter of its own) follows the
+			// order of the remaining sources; how a page's front-matter
+			// ranks against Fill / Assign inside a layout is not fixed by
+			// the statement and not asserted
+			zzAssert(strings.Contains(out, "[B:"+want+"]"), "C08.precedence.outer-layout-sees-the-page-sources")
+		}
+	}
 	if want != "" {
 		zzAssert(strings.Contains(out, `title="`+want+`"`), "C08.precedence.bound-attribute")
 		zzAssert(strings.Contains(out, "is-"+want), "C08.precedence.v-if")
